@@ -384,6 +384,9 @@ Definition threshold (total power : Z) : option bool :=
   else let q := power / 100 in
        if q =? 0 then Some false else Some (total / q <=? 150).
 
+(** [SyncPanic]: Sync does not complete — a Go panic, or the error "abnormal winner" — after
+    vpr.apply already changed the process-wide rank: the tx fails (reported as [EPanic] = "failed
+    after touching the globals"), the memory keeps the change *)
 Inductive sync_res := SyncOk (d : durable) (m : memory) | SyncPanic (m : memory).
 
 (** VoteResult.Sync for the issue whose rmap (and ex total) is given *)
@@ -400,16 +403,18 @@ Definition sync (c : cfg) (issue : N) (rmap : list (cand * Z)) (extotal : Z) (d 
       match threshold (d_total d2) topa with
       | None => SyncPanic m1
       | Some th =>
-        let '(d3, m3) :=
-          if th then
-            match parse_dec topc with
-            | Some value =>
-              (set_params (al_set N.eqb (issue - 1)%N (Z.abs value) (d_params d2)) d2,
-               set_pnext (al_set N.eqb (issue - 1)%N value (m_pnext m1)) m1)
-            | None => (d2, m1)       (* unreachable for validated candidates *)
-            end
-          else (d2, m1) in
-        SyncOk (set_vtotals (al_set N.eqb issue (Z.abs extotal) (d_vtotals d3)) d3) m3
+        if th then
+          (* the winner is parsed again, base 10 (voteresult.go:116); the string was validated by
+             ValidateSystemTx when it was cast — if the two parsers disagree Sync returns
+             "abnormal winner" AFTER vpr.apply: the tx fails with the rank change left in memory *)
+          match parse_dec topc with
+          | Some value =>
+            let d3 := set_params (al_set N.eqb (issue - 1)%N (Z.abs value) (d_params d2)) d2 in
+            let m3 := set_pnext (al_set N.eqb (issue - 1)%N value (m_pnext m1)) m1 in
+            SyncOk (set_vtotals (al_set N.eqb issue (Z.abs extotal) (d_vtotals d3)) d3) m3
+          | None => SyncPanic m1
+          end
+        else SyncOk (set_vtotals (al_set N.eqb issue (Z.abs extotal) (d_vtotals d2)) d2) m1
       end
     end
   else SyncOk d2 m1.
